@@ -57,6 +57,15 @@ def cases(dt, rng):
         out["partial_tucker"] = lambda: D.partial_tucker(X, [2, 2], modes=[0, 2], n_iter_max=4)
         out["tucker[mask]"] = lambda: D.tucker(X, [2, 2, 2], n_iter_max=4, mask=(rng.rand(4, 5, 6) > 0.2).astype(dt))
         out["robust_pca"] = lambda: D.robust_pca(X, n_iter_max=5)
+        out["robust_pca[bool mask]"] = lambda: D.robust_pca(X, mask=rng.rand(4, 5, 6) > 0.2, n_iter_max=5)
+        out["robust_pca[float64 mask]"] = lambda: D.robust_pca(X, mask=(rng.rand(4, 5, 6) > 0.2).astype(np.float64), n_iter_max=5)
+        out["parafac[float64 mask]"] = lambda: D.parafac(X, 2, n_iter_max=4, mask=(rng.rand(4, 5, 6) > 0.2).astype(np.float64), random_state=0)
+        out["tucker[bool mask]"] = lambda: D.tucker(X, [2, 2, 2], n_iter_max=4, mask=rng.rand(4, 5, 6) > 0.2)
+        out["tensor_ring_als_sampled[uniform]"] = lambda: D.tensor_ring_als_sampled(X, [2, 2, 2, 2], n_samples=10, n_iter_max=3, random_state=0, uniform_sampling=True)
+        out["tensor_ring_als_sampled[randomized_error]"] = lambda: D.tensor_ring_als_sampled(X, [2, 2, 2, 2], n_samples=10, n_iter_max=3, random_state=0, randomized_error=True, tol=1e-12)
+        out["tensor_ring_als[normal_eq]"] = lambda: D.tensor_ring_als(X, [2, 2, 2, 2], n_iter_max=3, random_state=0, ls_solve="normal_eq")
+        out["parafac[linesearch,long]"] = lambda: D.parafac(X, 2, n_iter_max=20, linesearch=True, random_state=0, tol=1e-30, return_errors=True)
+        out["parafac2[linesearch]"] = lambda: D.parafac2(X, 2, n_iter_max=12, linesearch=True, random_state=0, tol=1e-30, return_errors=True)
         out["cmtf"] = lambda: _cmtf_als.coupled_matrix_tensor_3d_factorization(X, arr(4, 3), 2, n_iter_max=4)
         out["cmtf[normalize]"] = lambda: _cmtf_als.coupled_matrix_tensor_3d_factorization(X, arr(4, 3), 2, n_iter_max=4, normalize_factors=True)
         out["power_iteration"] = lambda: D.parafac_power_iteration(X, 2, n_repeat=2, n_iteration=3)
